@@ -30,6 +30,7 @@ var c20KindMap = map[string]string{
 	"TextNode": "Text", "PrintNode": "Print", "NameExpr": "Name", "NumberExpr": "Number", "StringExpr": "String", "BoolExpr": "Bool", "NullExpr": "Null",
 	"IfNode": "If", "ForNode": "For", "SetNode": "Set", "DoNode": "Do", "FilterNode": "Filter", "BlockNode": "Block", "ExtendsNode": "Extends",
 	"UseNode": "Use", "IncludeNode": "Include", "EmbedNode": "Embed", "MacroNode": "Macro", "ImportNode": "Import", "FromNode": "From", "TestExpr": "Test",
+	"FuncExpr": "Func", "FilterExpr": "FilterX",
 }
 
 type anchor struct {
